@@ -58,7 +58,10 @@ Proof.
     + destruct (NS ltac:(intros ? X; discriminate X)) as (s1 & o1 & ep & o2 & C & A & E). cbn [core] in C.
       rewrite Ph in C. inv C. simpl in A. inv A. eapply SAME; [reflexivity|reflexivity|apply no_sp_nil].
     + destruct (Z.eq_dec tid0 tid) as [->|Ne].
-      * destruct (retry_resends _ _ _ _ _ _ _ Ph H) as [-> Ph']. right. exists cur. split; [left; exact Ph'|].
+      * destruct (broken s) eqn:BK.
+        { left. unfold step in H. cbn [core] in H. rewrite Ph, Z.eqb_refl, BK in H. simpl in H.
+          unfold finish, finish0 in H. destruct (check_send_batch c _) as [s2 o2]. inv H. left; reflexivity. }
+        destruct (retry_resends _ _ _ _ _ _ _ Ph BK H) as [-> Ph']. right. exists cur. split; [left; exact Ph'|].
         split; [apply incl_refl|]. intros a m v [X|[]]. inv X. apply viewf_tps.
       * destruct (NS ltac:(intros ? X; discriminate X)) as (s1 & o1 & ep & o2 & C & A & E). cbn [core] in C.
         rewrite Ph in C. apply Z.eqb_neq in Ne. rewrite Ne in C. inv C. simpl in A. inv A.
@@ -75,13 +78,31 @@ Proof.
         unfold fin_if in H. destruct done; simpl in H.
         -- left. unfold finish, finish0 in H. destruct (check_send_batch c _) as [s2 o2]. inv H.
            apply in_or_app; right; left; reflexivity.
-        -- inv H. rewrite app_nil_r. apply handle_result_retry in Eh as (cur' & tid & Ph' & In' & _); auto.
+        -- inv H. rewrite app_nil_r. apply handle_result_retry in Eh as (cur' & tid & Ph' & In' & _); [|eapply result_ok_in; eauto].
            right. exists cur'. split; [right; exists tid; exact Ph'|]. split; auto.
            intros a m w X. exfalso; eapply N; eauto.
       * destruct (NS ltac:(intros ? X; discriminate X)) as (s1 & o1 & ep & o2 & C & A & E). cbn [core] in C.
         rewrite Ph, OK in C. inv C. simpl in A. inv A. eapply SAME; [reflexivity|reflexivity|apply no_sp_nil].
     + destruct (NS ltac:(intros ? X; discriminate X)) as (s1 & o1 & ep & o2 & C & A & E). cbn [core] in C.
       rewrite Ph in C. inv C. simpl in A. inv A. eapply SAME; [reflexivity|reflexivity|apply no_sp_nil].
+  - (* EResultOmit *)
+    destruct SP as [Ph|[tid Ph]].
+    + destruct (omit_ok c cur v) eqn:OK.
+      * unfold step in H. cbn [core] in H. rewrite Ph, OK in H.
+        destruct (handle_result c s pls cur v) as [[s1 o1] done] eqn:Eh. pose proof (handle_result_sp _ _ _ _ _ _ _ _ Eh) as N.
+        unfold fin_if in H. destruct done; simpl in H.
+        -- left. unfold finish, finish0 in H. destruct (check_send_batch c _) as [s2 o2]. inv H.
+           apply in_or_app; right; left; reflexivity.
+        -- inv H. rewrite app_nil_r. apply handle_result_retry in Eh as (cur' & tid & Ph' & In' & _); [|eapply omit_ok_in; eauto].
+           right. exists cur'. split; [right; exists tid; exact Ph'|]. split; auto.
+           intros a m w X. exfalso; eapply N; eauto.
+      * destruct (NS ltac:(intros ? X; discriminate X)) as (s1 & o1 & ep & o2 & C & A & E). cbn [core] in C.
+        rewrite Ph, OK in C. inv C. simpl in A. inv A. eapply SAME; [reflexivity|reflexivity|apply no_sp_nil].
+    + destruct (NS ltac:(intros ? X; discriminate X)) as (s1 & o1 & ep & o2 & C & A & E). cbn [core] in C.
+      rewrite Ph in C. inv C. simpl in A. inv A. eapply SAME; [reflexivity|reflexivity|apply no_sp_nil].
+  - (* EBroken *)
+    destruct (NS ltac:(intros ? X; discriminate X)) as (s1 & o1 & ep & o2 & C & A & E). cbn [core] in C.
+    inv C. simpl in A. inv A. eapply SAME; [reflexivity|reflexivity|apply no_sp_nil].
   - (* EStop: the batch ends *)
     left. unfold step in H. set (s0 := set_flags s true (looper s)) in *.
     destruct (cancel_batch c s0 cv) as [[s1 o1] done] eqn:E.
@@ -143,4 +164,62 @@ Proof.
       * rewrite until_done_app_yes; auto. intros a m v X. apply until_done_incl in X. eapply Wn; eauto.
       * rewrite until_done_app_no; auto. intros a m v X. apply in_app_or in X as [X|X]; [eapply Wn; eauto|].
         eapply incl_tran; [eapply IH; eauto|exact In'].
+Qed.
+
+(* ------------------------------------------------------------------ exactly the failed payloads are retried *)
+Definition err_tps (rs : list (tp * Z * Z)) : list tp :=
+  map (fun e => fst (fst e)) (filter (fun e : tp * Z * Z => negb (snd (fst e) =? 0)) rs).
+(* the payloads a result leaves to be retried: those whose broker request failed, those answered with an error
+   code; after a failure of the request as a whole (Kafka error) every payload of this attempt *)
+Definition failed_tps (v : value) (cur : list tp) : list tp :=
+  match v with
+  | VResp rs => err_tps rs
+  | VFailed rs fs => map fst fs ++ err_tps rs
+  | VKafka _ => cur
+  | _ => []
+  end.
+
+Lemma process_resps_fl_exact : forall rs s pls s' out fl, process_resps s pls rs = (s', out, fl) -> tps_of_fl fl = err_tps rs.
+Proof.
+  induction rs as [|[[x err] off] r IH]; simpl; intros s pls s' out fl H.
+  - inv H. reflexivity.
+  - unfold err_tps in *. simpl. destruct (err =? 0) eqn:Ez; simpl.
+    + destruct (deliver s (sends_of pls x) _) as [s1 o1]. destruct (process_resps s1 pls r) as [[s2 o2] f2] eqn:E2. inv H. eauto.
+    + destruct (process_resps s pls r) as [[s2 o2] f2] eqn:E2. inv H. simpl. f_equal. eauto.
+Qed.
+
+Lemma handle_result_retry_exact : forall c s pls cur v s1 o1,
+  handle_result c s pls cur v = (s1, o1, false) -> exists tid, ph s1 = RetryWait pls (failed_tps v cur) tid.
+Proof.
+  unfold handle_result; intros c s pls cur v s1 o1 H. destruct v; simpl.
+  - destruct (deliver s (all_sends pls) _); inv H.
+  - destruct (process_resps s pls rs) as [[s2 o2] f2] eqn:E. apply process_resps_fl_exact in E.
+    destruct f2 as [|p0 f2]; [inv H|].
+    destruct (check_retry c s2 pls (p0 :: f2)) as [[s3 o3] d3] eqn:E3. inv H.
+    apply check_retry_phase in E3 as [tid E3]. exists tid. rewrite E3, E. reflexivity.
+  - destruct (if c_acks c =? 0 then _ else _) as [s0 o0].
+    destruct (process_resps s0 pls rs) as [[s2 o2] f2] eqn:E. apply process_resps_fl_exact in E.
+    destruct (check_retry c s2 pls _) as [[s3 o3] d3] eqn:E3. inv H.
+    apply check_retry_phase in E3 as [tid E3]. exists tid. rewrite E3. f_equal.
+    unfold tps_of_fl in *. rewrite map_app, map_map. simpl. rewrite E. reflexivity.
+  - apply check_retry_phase in H as [tid H]. exists tid. rewrite H. f_equal.
+    unfold tps_of_fl. rewrite map_map. simpl. apply map_id.
+  - destruct (deliver s (all_sends pls) _); inv H.
+Qed.
+
+(* when a result leaves the batch unresolved the retry set is exactly the failed payloads *)
+Theorem retry_exact : forall c s pls cur v s' out, Inv s -> ph s = Sending pls cur -> result_ok c cur v = true ->
+  step c s (EResult v) = (s', out) ->
+  In OBatchDone out \/
+  (exists tid, ph s' = RetryWait pls (failed_tps v cur) tid /\ incl (failed_tps v cur) cur /\
+               forall x off, In (x, 0, off) (resps_of v) -> ~ In x (failed_tps v cur)).
+Proof.
+  intros c s pls cur v s' out I P OK H.
+  unfold step in H. cbn [core] in H. rewrite P, OK in H.
+  destruct (handle_result c s pls cur v) as [[s1 o1] done] eqn:E. unfold fin_if in H. destruct done; simpl in H.
+  - left. unfold finish, finish0 in H. destruct (check_send_batch c _) as [s2 o2]. inv H.
+    apply in_or_app; right; left; reflexivity.
+  - inv H. right. destruct (handle_result_retry_exact _ _ _ _ _ _ _ E) as [tid E'].
+    destruct (handle_result_retry _ _ _ _ _ _ _ (result_ok_in _ _ _ OK) E) as (cur' & tid' & Ph' & In' & Ak). rewrite E' in Ph'. inv Ph'.
+    exists tid'. auto.
 Qed.
